@@ -326,14 +326,15 @@ func httpExtractTrailers(headers http.Header, knownTrailerKeys headerKeys) http.
 	return trailers
 }
 
+// httpMergeTrailers sets the given trailers in header, using the trailer
+// prefix. It is only called once the response head has been written. The
+// given values replace anything the handler may already have set for the
+// same trailer, so that exactly one outcome reaches the client.
 func httpMergeTrailers(header http.Header, trailer http.Header) {
 	for key, vals := range trailer {
-		if !strings.HasPrefix(key, http.TrailerPrefix) {
-			key = http.TrailerPrefix + key
-		}
-		for _, val := range vals {
-			header.Add(key, val)
-		}
+		plainKey := strings.TrimPrefix(key, http.TrailerPrefix)
+		delete(header, plainKey)
+		header[http.TrailerPrefix+plainKey] = append([]string(nil), vals...)
 	}
 }
 
